@@ -19,7 +19,28 @@ func (prop) Finish(*core.Session) { Cleanup() }
 
 var setCookieSid = regexp.MustCompile(`sid=([^;]*)`)
 
+// core keeps at most 200 failures per run: report every failure class at most maxPerClass times so
+// that the (numerous) instances of one class can never crowd out a different one.
+const maxPerClass = 8
+
+var classCount = map[string]int{}
+
 func (prop) Run(line string) core.Outcome {
+	o := run(line)
+	kept := o.Failures[:0]
+	for _, f := range o.Failures {
+		classCount[f.Class]++
+		if classCount[f.Class] <= maxPerClass {
+			kept = append(kept, f)
+		} else {
+			o.Tags = append(o.Tags, "oracle-failure-not-listed:"+f.Class)
+		}
+	}
+	o.Failures = kept
+	return o
+}
+
+func run(line string) core.Outcome {
 	f := strings.Fields(line)
 	if len(f) == 0 {
 		return core.Outcome{Impl: "bad-op"}
@@ -43,7 +64,10 @@ var credBase = []string{"cookie", "set-cookie", "authorization", "proxy-authoriz
 
 var nearMiss = []string{"cookie2", "x-cookie", "set_cookie", "cookies", "authorisation", "proxy-authorization ", "",
 	"x-auth-token", "coo kie", "Set-Cookie2", "Proxy-Authenticate", "WWW-Authenticate", "X-Api-Key", "Accept", "User-Agent",
-	"authorization\x00", "\xffcookie", "Cookie:", "X-Forwarded-For"}
+	"authorization\x00", "\xffcookie", "Cookie:", "X-Forwarded-For",
+	// byte sequences around the two non-ASCII runes strings.ToLower folds onto ASCII letters
+	"set-coo\xe2\x84\xaa\xc4\xb0e", "author\xc4\xb0zat\xc4\xb0on", "coo\xe2\x84ie", "cookie\xc4", "cookie\xc4\xb0", "cook\xc4\xb0",
+	"co\x80o\xe2\x84\xaaie", "\xf0coo\xe2\x84\xaaie", "coo\xe2\x84\xaa\xe2\x84\xaaie", "COO\xe2\x84\xaaIE", "c\xc5\x8fokie", "cooк ie", "\xe2\x84\xaa", "\xc4\xb0"}
 
 // casing returns a spelling of an ASCII name: canonical, lower, upper, random flips, or with the
 // Kelvin sign / dotted capital I that strings.ToLower maps to ASCII letters.
